@@ -222,7 +222,7 @@ let check_mode flavor stepf prop script impl =
   (* twin-run bookkeeping: per instance, the implementation's events of its last op (instance
      index blanked), that op, and the implementation's settings before it *)
   let last_evs = Array.make ninst [] and last_op = Array.make ninst None
-  and last_before = Array.make ninst None in
+  and last_before = Array.make ninst None and last_mbefore = Array.make ninst None in
   let n_twin = ref 0 and n_badgen = ref 0 and script_invalid = ref false in
   let norm_ev l = (* blank the instance index, 5th token *)
     match String.split_on_char ' ' l with
@@ -241,7 +241,9 @@ let check_mode flavor stepf prop script impl =
       (* hypotheses of the relational theorems, evaluated with the extracted predicates *)
       (match kind with
        | "?3" ->
-         (match last_op.(i), last_op.(j), last_before.(i) with
+         (* the hypothesis is evaluated with the settings the SPECIFICATION prescribes at this
+            point (model state), not with what the implementation's getters claim *)
+         (match last_op.(i), last_op.(j), last_mbefore.(i) with
           | Some (OParse g), Some (OParse g'), Some cfg ->
             if not (dontcare_equiv cfg g g') then badgen "not-dontcare-equivalent"
           | _ -> badgen "twin-ops-not-parse")
@@ -326,6 +328,7 @@ let check_mode flavor stepf prop script impl =
            then (try Some (snapshot_of_strings icur.(k)) with _ -> None) else None in
          last_before.(k) <- before;
          last_op.(k) <- (match o with SApi op -> Some op | _ -> None);
+         last_mbefore.(k) <- (if twin_mode then (match (!insts).(k).st with Some ms -> Some (snap_of ms) | None -> None) else None);
          let (mret, mevs) = model_exec stepf !insts k o in
          let (ies, ids, iret) = read_impl_op () in
          last_evs.(k) <- List.map norm_ev ies;
